@@ -2,15 +2,19 @@ SPECIFICATION TraceSpec
 CONSTANTS
   MaxT = 16
   UseLock = TRUE
+  DevJoinLastWins = FALSE
   Gs = {1}
   Ns = {1}
   Flexes = {1}
   Kinds = {1}
   BadSets = {{}}
+  FailModes = {"none"}
 INVARIANT PartitionExact
 INVARIANT MutualExclusion
 INVARIANT LockHeld
 INVARIANT LoadedOnce
+INVARIANT FailsIffThreadFailed
+INVARIANT NeverLoadsFailing
 INVARIANT Result
 POSTCONDITION TraceAccepted
 CHECK_DEADLOCK FALSE
